@@ -986,8 +986,14 @@ class Adapter(object):
                     args.append(1e-16)
                 elif third == 'enum':
                     args.append(metrics.R2.classic)
+                # compile only: the warm-up must not EXECUTE library code (state set by a first call — a latch, a
+                # memo — would be inherited by every "pristine" process); a function that is not a numba dispatcher
+                # is simply left alone and runs for the first time inside a run
+                comp = getattr(fn, '_compile_for_args', None)
+                if comp is None:
+                    continue
                 try:
-                    fn(*args)
+                    comp(*args)
                 except Exception:
                     pass
         import gc
